@@ -69,3 +69,41 @@ Example c09_nonvacuous :
   let t := fold_left tstep [OOffer 0 true 1%N (a 1%N); OOffer 0 false (2 ^ 159)%N (a 2%N); OOffer 0 true 3%N (a 3%N)] (init_table 0%N []) in
   map nd_id (closest_nodes 5 t 2%N) = [3%N; 1%N; (2 ^ 159)%N] /\ (length (live_nodes 5 t) = 3)%nat.
 Proof. vm_compute. split; reflexivity. Qed.
+
+(* ------------------------------------------------------------------------------------------
+   The executable checker c09_ok (run/Run_TableCheck.v), which is what is evaluated on the
+   dumps of the REAL routing table, versus the model the theorems above are about. *)
+From BT Require Import run.Run_Table run.Run_TableCheck proofs.Checker_Table_Facts.
+
+(* completeness on the model: on the model's own observations the checker never raises an alarm,
+   for every local id and every script in which the router addresses come first and no offered or
+   named address is the placeholder 127.0.0.1:0 of empty slots (what the generators emit) *)
+Theorem c09_checker_accepts_model : forall (local : N) (ops : list rtop),
+  routers_first ops && forallb rtop_okb ops = true ->
+  c09_ok local ops (model_obs local ops) = None.
+Proof. exact c09_ok_model_silent. Qed.
+
+(* soundness: whenever the checker accepts a trace, at every  Dump ; Closest(target)  pair taken at
+   one instant the observed enumeration cl is a duplicate-free listing of exactly the live slots of
+   the observed dump d (as handles), every live node sharing a longer prefix with the target than
+   the local id does is among the first nodes emitted (as many as there are live nodes in the
+   target's own bucket range), and there are at most 8 such nodes *)
+Theorem c09_checker_sound : forall (local : N) (ops : list rtop) (obs : list rtobs),
+  c09_ok local ops obs = None ->
+  forall k t target d cl,
+    nth_error ops k = Some (TDump t) -> nth_error ops (S k) = Some (TClosest t target) ->
+    nth_error obs k = Some (ObDump d) -> nth_error obs (S k) = Some (ObClosest cl) ->
+    length cl = length (live_of d)
+    /\ NoDup cl
+    /\ (forall h, In h cl -> exists x, In x (live_of d) /\ hd_s x = h)
+    /\ (forall x, In x (live_of d) -> In (hd_s x) cl)
+    /\ NoDup (map hd_s (live_of d))
+    /\ Permutation cl (map hd_s (live_of d))
+    /\ (forall x, In x (live_of d) -> (lcp local target < lcp (id_of x) target)%nat ->
+          In (hd_s x)
+             (firstn (length (filter (fun x => Nat.eqb (lcp local (id_of x)) (lcp local target)) (live_of d))) cl))
+    /\ (length (filter (fun x => Nat.ltb (lcp local target) (lcp (id_of x) target)) (live_of d)) <= 8)%nat.
+Proof. exact c09_ok_sound. Qed.
+
+Print Assumptions c09_checker_accepts_model.
+Print Assumptions c09_checker_sound.
